@@ -192,6 +192,24 @@ Theorem C05_fold_idle_cycle_refuted :
   exists c r c' n, Inv c /\ fold c r = (c', OkN n) /\ ~ Inv c'.
 Proof. exact fold_idle_cycle_refuted. Qed.
 
+(* the proposed repair (fixes/D6.patch) is modelled by the switch `fx` of straighten_rx / fold_x:
+   off it is the current algorithm; on, both D6 witnesses end without an idle cycle, fold returns
+   the same point and straighten keeps every timeline (the repaired implementation is compared with
+   `fold_x true` / `straighten_x true` by the harness when it is the tree under test) *)
+Theorem C05_fold_x_false_is_fold : forall c r, fold_x false c r = fold c r.
+Proof. exact fold_x_false. Qed.
+
+Theorem C05_fold_repair_on_witnesses :
+  Inv (fst (fold_x true d6_circuit d6_region)) /\ snd (fold_x true d6_circuit d6_region) = OkN 2
+  /\ ~ Inv (fst (straighten_rx false d6b_circuit d6b_region))
+  /\ Inv (fst (straighten_rx true d6b_circuit d6b_region))
+  /\ Inv (fst (fold_x true d6b_circuit d6b_region))
+  /\ map (tl (fst (straighten_rx true d6b_circuit d6b_region))) (seq 0 6) = map (tl d6b_circuit) (seq 0 6).
+Proof. exact fold_x_repairs_d6. Qed.
+(* to do: Inv of the repaired result for every circuit satisfying Inv *)
+Definition C05_fold_repair_inv_full : Prop :=
+  forall c r c' n, Inv c -> fold_x true c r = (c', OkN n) -> Inv c'.
+
 Example C05_nonvacuous :
   let cx := Op false 4 [0;1] [] [2;2] [] in
   let x0 := Op false 1 [0] [] [2] [] in
